@@ -297,6 +297,16 @@ func (s *session) exec(op string) string {
 	if len(f) == 0 {
 		return "empty op"
 	}
+	if f[0] == "MULTI" {
+		// several requests back to back, then settle
+		note := ""
+		for _, sub := range strings.Split(strings.TrimPrefix(op, "MULTI "), "|") {
+			if n := s.exec(strings.TrimSpace(sub)); n != "" {
+				note += n + "; "
+			}
+		}
+		return note
+	}
 	need := func(n int) bool { return len(f) >= n }
 	if f[0] == "OPEN" {
 		return s.open(atoi(f[1]))
